@@ -313,6 +313,7 @@ fn boxed_ops(op: &str, a: &[&str]) -> Option<String> {
 //   c10.hook.inverter <sat> <m> <adj> → modulus adjuster inverse     c10.hook.norm <sat> <m> <value> <negate>
 //   c10.hook.binverter <n> <m> <nadj> <adj>                           c10.hook.bnorm <n> <m> <value> <negate>
 //   c10.hook.bnlimbs <sat>
+#[cfg(crypto_bigint_verif)]
 mod hook {
     use crate::util::*;
     use crypto_bigint::modular::{BoxedSafeGcdInverter, SafeGcdInverter};
@@ -449,6 +450,11 @@ mod hook {
     }
 }
 
+#[cfg(not(crypto_bigint_verif))]
+fn hook_dispatch(_name: &str, _a: &[&str]) -> Option<String> {
+    Some(crate::util::HOOK_UNAVAILABLE.to_string())
+}
+#[cfg(crypto_bigint_verif)]
 fn hook_dispatch(name: &str, a: &[&str]) -> Option<String> {
     let unsupported = Some("unsupported-width".to_string());
     match name {
